@@ -487,7 +487,7 @@ func c9schedUnits(tier string) []mc.Unit {
 				if out.Stuck {
 					return false
 				}
-				return ok || r.FailCount < 5
+				return !r.Enough()
 			})
 			r.AddExplore(st, "schedules/"+p.name)
 			r.AddNontrivial(int64(st.Execs))
